@@ -1,13 +1,13 @@
 SPECIFICATION Spec
 CONSTANTS
-  Fault = "none"
-  Cfgs <- T5B_Cfgs
+  Fault = "soc_sign"
+  Cfgs <- FM_Bel
   Soc0s <- SocAll
   Dts <- Dt2
   Engs <- OnOnly
-  ClsOn <- T5_BelCls
-  ClsOff <- ClsZero
-  Depth = 5
+  ClsOn <- QB_On
+  ClsOff <- QB_Off
+  Depth = 2
 INVARIANT L1
 INVARIANT L1s
 INVARIANT L2
